@@ -58,7 +58,16 @@ def wb_cases(tier):
 def extra_models():
     K, cell, rng, op, fn, num, const = M.K, M.cell, M.rng, M.op, M.fn, M.num, M.const
     B = M.B
+    colon = lambda a, b: ['colon', a, b]
+    nm = lambda x: ['name', B, x]
+    grid = {K('S', '%s%d' % (c, r)): const(('n', float(10 * r + i))) for i, c in enumerate('AB') for r in (1, 2, 3)}
     return {
+        # names defined through other names, as end points of the range operator in cell formulas and in another name
+        'chained-names': {'cells': dict(grid, **{K('S', 'D1'): fn('COUNT', colon(nm('ALIAS'), cell('S', 'B3'))), K('S', 'D2'): fn('SUM', colon(nm('ALIAS'), nm('LAST'))),
+                                                  K('S', 'D3'): fn('SUM', colon(nm('FIRST'), nm('LAST'))), K('S', 'D4'): fn('SUM', colon(cell('S', 'A2'), nm('ALIAS2'))),
+                                                  K('S', 'D5'): op('+', fn('SUM', nm('FIRST')), fn('SUM', nm('LAST')))}),
+                          'arrays': {}, 'names': {'%s|FIRST' % B: cell('S', 'A1'), '%s|ALIAS' % B: nm('FIRST'), '%s|LAST' % B: cell('S', 'B3'), '%s|ALIAS2' % B: nm('ALIAS')},
+                          'sheets': [[B, 'S']]},
         # a name that no longer exists, used by a cell AND by another defined name; a name for a name; a name for a constant
         'undef-name': {'cells': {K('S', 'A1'): const(('n', 2.0)), K('S', 'B2'): op('+', ['name', B, 'OLD_RATE'], num(1)), K('S', 'B3'): op('*', ['name', B, 'ALIAS'], num(2)),
                                  K('S', 'B4'): fn('IFERROR', cell('S', 'B2'), num(7)), K('S', 'B5'): op('+', ['name', B, 'SECOND'], cell('S', 'A1')),
@@ -233,6 +242,13 @@ RAW = {
     'circ-unbreakable': {"'[b.xlsx]S'!A1": "='[b.xlsx]S'!B1+1", "'[b.xlsx]S'!B1": "='[b.xlsx]S'!A1+1", "'[b.xlsx]S'!C1": "=IF(ISERROR('[b.xlsx]S'!A1),\"loop\",'[b.xlsx]S'!A1*2)",
                          "'[b.xlsx]S'!D1": "=SUM('[b.xlsx]S'!A1:B1)", "'[b.xlsx]S'!E1": 5, "'[b.xlsx]S'!E2": "='[b.xlsx]S'!E1*2"},
     'circ-guarded': {"'[b.xlsx]S'!G1": False, "'[b.xlsx]S'!A1": "=IF('[b.xlsx]S'!G1,'[b.xlsx]S'!B1,5)", "'[b.xlsx]S'!B1": "='[b.xlsx]S'!A1*2", "'[b.xlsx]S'!C1": "=IFERROR('[b.xlsx]S'!B1,7)"},
+    # names defined through other names, used as end points of the range operator and inside other names
+    'chained-names': dict({"'[b.xlsx]S'!%s%d" % (c, r): 10 * r + i for i, c in enumerate('AB') for r in (1, 2, 3)},
+                          **{"'[b.xlsx]'!FIRST": "='[b.xlsx]S'!A1", "'[b.xlsx]'!ALIAS": "='[b.xlsx]'!FIRST", "'[b.xlsx]'!LAST": "='[b.xlsx]S'!B3",
+                             "'[b.xlsx]'!ALIAS2": "='[b.xlsx]'!ALIAS", "'[b.xlsx]'!BLOCK": "='[b.xlsx]'!FIRST:'[b.xlsx]'!LAST",
+                             "'[b.xlsx]S'!C1": "=COUNT('[b.xlsx]'!ALIAS:'[b.xlsx]S'!B3)", "'[b.xlsx]S'!C2": "=SUM('[b.xlsx]'!ALIAS:'[b.xlsx]'!LAST)",
+                             "'[b.xlsx]S'!C3": "=SUM('[b.xlsx]'!FIRST:'[b.xlsx]'!LAST)", "'[b.xlsx]S'!C4": "=SUM('[b.xlsx]S'!A2:'[b.xlsx]'!ALIAS2)",
+                             "'[b.xlsx]S'!C5": "=SUM('[b.xlsx]'!BLOCK)+'[b.xlsx]'!ALIAS2"}),
     'hex-and-arrays': {"'[b.xlsx]S'!A1": 255, "'[b.xlsx]S'!B1": "=DEC2HEX('[b.xlsx]S'!A1)", "'[b.xlsx]S'!C1:D2": "={1,2;3,4}*'[b.xlsx]S'!A1", "'[b.xlsx]S'!E1": "=SUM('[b.xlsx]S'!C1:D2)"},
 }
 
